@@ -402,3 +402,23 @@ def tcp_frames(stream: bytes):
         out.append(stream[pos + 2:pos + 2 + ln])
         pos += 2 + ln
     return out, stream[pos:]
+
+
+# ---------------------------------------------------------------- input classification (for failure bucketing only)
+def rr_hazard(rr: "RR") -> str:
+    """what is unusual about this record's wire RDATA, most specific first:
+       badname   the type has a layout but RDATA does not follow it (e.g. a name field that loops / is truncated)
+       ptrlike   an octet >= 0xC0 occurs outside the record's name fields (numeric field, character-string, opaque data)
+       multicomp two or more compressed names inside RDATA
+       comp      one compressed name inside RDATA
+       plain     none of these"""
+    if not rr.parsed:
+        return "badname"
+    if rr.type in LAYOUT:
+        if any(k == "b" and any(c >= 0xC0 for c in v) for k, v in rr.fields):
+            return "ptrlike"
+    elif any(c >= 0xC0 for c in rr.rdata):
+        return "ptrlike"
+    if rr.ncomp >= 2:
+        return "multicomp"
+    return "comp" if rr.ncomp else "plain"
